@@ -34,10 +34,10 @@ def run_case(desc):
     cl = classes_of(dict(cfg, cls=direction)) + [f"direction:{direction}"]
 
     def tol_for(scale):
-        return (64 * eps * cond + 1e-11) * max(1.0, scale)
+        return (64 * eps * cond + 1e-11) * scale
 
     if direction == "forward":
-        drv = np.abs(np.array(cfg["driver"], float))  # non-negative inflow
+        drv = np.abs(sg.driver_values(cfg))  # non-negative inflow
         # "with the same lifetime model": optionally one shared LifetimeModel object for all three stocks
         shared = sg.build_lifetime(sg.universe_of(cfg), cfg["lt"]) if desc.get("shared_model") else None
         if shared is not None:
@@ -62,7 +62,7 @@ def run_case(desc):
         shared = sg.build_lifetime(sg.universe_of(cfg), cfg["lt"]) if desc.get("shared_model") else None
         if shared is not None:
             cl.append("shared-lifetime-model-object")
-        prescribed = np.array(cfg["driver"], float)
+        prescribed = sg.driver_values(cfg)
         for solver in ("manual", "lapack"):
             b = sg.build_stock(dict(cfg, cls=f"sdsm_{solver}"), lifetime=shared)
             b.compute()
